@@ -618,10 +618,16 @@ class DelHooks(SendHooks):
                   '%s for delivery number %s (concurrency %d) with used=%s: a forged or stale report changes a recipient\'s state' % (what, num, self.CONC, used), E)
 
     def prim_read(self, E, x, args):
-        return [Outcome(ret=fs(-1)), Outcome(ret=fs(0)), Outcome(ret=fs(7))]
+        return [Outcome(ret=fs(-1), sets={'$r': fs(-1)}), Outcome(ret=fs(0), sets={'$r': fs(0)}), Outcome(ret=fs(7), sets={'$r': fs(7)})]
 
     def prim_spawndied(self, E, x, args):
         return [Outcome(ret=TOP)]
+
+    def pipe_ok(self, E, x, what):
+        """a read error or end of file on the report pipe changes no recipient's state"""
+        r = g1(E, '$r')
+        self.site('del:EOF-or-error-on-the-report-pipe-changes-nothing', x, r is None or r > 0,
+                  '%s although read() on the report pipe returned %s: bytes left in the buffer from an earlier read are taken for a report' % (what, r), E)
 
     def prim_stralloc_append(self, E, x, args):
         return [Outcome(ret=fs(1))]
@@ -640,6 +646,7 @@ class DelHooks(SendHooks):
 
     def prim_markdone(self, E, x, args):
         self.count('mark')
+        self.pipe_ok(E, x, 'markdone()')
         self.slot_ok(E, x, 'markdone()')
         L0 = g1(E, '$letter')
         dying = self.dying
@@ -657,6 +664,7 @@ class DelHooks(SendHooks):
 
     def prim_addbounce(self, E, x, args):
         self.count('bounce')
+        self.pipe_ok(E, x, 'addbounce()')
         self.slot_ok(E, x, 'addbounce()')
         L0 = g1(E, '$letter')
         dying = self.dying
@@ -665,6 +673,7 @@ class DelHooks(SendHooks):
         return [Outcome(ret=TOP, log='addbounce')]
 
     def prim_job_close(self, E, x, args):
+        self.pipe_ok(E, x, 'job_close()')
         self.slot_ok(E, x, 'job_close()')
         L0 = g1(E, '$letter')
         dying = self.dying
@@ -682,6 +691,7 @@ class DelHooks(SendHooks):
 
     def on_assign(self, E, x, path, val):
         if path and path.endswith('.numtodo'):
+            self.pipe_ok(E, x, '--numtodo')
             self.slot_ok(E, x, '--numtodo')
             E.set('$dec', fs(min(g1(E, '$dec', 0) + 1, 2)))
         if path is None:
